@@ -387,7 +387,7 @@ func (e *Env) build(op *Op) (*Built, string) {
 		}
 		sig := e.jws(signer, &p, op.Tam, &alt)
 		return &Built{Msgs: []sdk.Msg{saotypes.NewMsgTerminate(a.AddrS, p, sig, prov.AddrS)}, Signer: a,
-			Auth: &AuthTruth{SignerDid: signer.Did, Intact: op.Tam == "", DataIds: []string{d.DataId}, Kind: "terminate"}}, ""
+			Auth: &AuthTruth{SignerDid: signer.Did, Intact: op.Tam == "" || (op.Tam == "ownerfield" && owner != nil && owner.Did == signer.Did), DataIds: []string{d.DataId}, Kind: "terminate"}}, ""
 	case "renew":
 		if len(op.Ds) == 0 {
 			return nil, "no-data"
@@ -415,7 +415,7 @@ func (e *Env) build(op *Op) (*Built, string) {
 		}
 		sig := e.jws(signer, &p, op.Tam, &alt)
 		return &Built{Msgs: []sdk.Msg{saotypes.NewMsgRenew(a.AddrS, &p, &sig, prov.AddrS)}, Signer: a,
-			Auth: &AuthTruth{SignerDid: signer.Did, Intact: op.Tam == "", DataIds: ids, Kind: "renew"}}, ""
+			Auth: &AuthTruth{SignerDid: signer.Did, Intact: op.Tam == "" || (op.Tam == "ownerfield" && owner != nil && owner.Did == signer.Did), DataIds: ids, Kind: "renew"}}, ""
 	case "migrate":
 		if op.Slot > 0 && len(op.Ds) > 0 {
 			if h := e.holderOf(e.data(op.Ds[0]), op.Slot, true); h != nil {
@@ -460,7 +460,7 @@ func (e *Env) build(op *Op) (*Built, string) {
 		}
 		sig := e.jws(signer, &p, op.Tam, &alt)
 		return &Built{Msgs: []sdk.Msg{saotypes.NewMsgUpdataPermission(a.AddrS, p, sig, prov.AddrS)}, Signer: a,
-			Auth: &AuthTruth{SignerDid: signer.Did, Intact: op.Tam == "", DataIds: []string{d.DataId}, Kind: "perm"}}, ""
+			Auth: &AuthTruth{SignerDid: signer.Did, Intact: op.Tam == "" || (op.Tam == "ownerfield" && owner != nil && owner.Did == signer.Did), DataIds: []string{d.DataId}, Kind: "perm"}}, ""
 	case "report", "recover":
 		acc := e.ref(op.Acc, nil)
 		if acc == nil {
@@ -606,6 +606,6 @@ func (e *Env) buildStore(op *Op, a *Actor) (*Built, string) {
 	sig := e.jws(signer, &p, op.Tam, &alt)
 	d.NextVer++
 	return &Built{Msgs: []sdk.Msg{saotypes.NewMsgStore(a.AddrS, &p, &sig, prov.AddrS)}, Signer: a,
-		Auth: &AuthTruth{SignerDid: signer.Did, Intact: op.Tam == "", DataIds: []string{d.DataId}, Kind: "store"},
+		Auth: &AuthTruth{SignerDid: signer.Did, Intact: op.Tam == "" || (op.Tam == "ownerfield" && owner != nil && owner.Did == signer.Did), DataIds: []string{d.DataId}, Kind: "store"},
 		Info: "commit=" + commitField}, ""
 }
